@@ -119,7 +119,7 @@ int main(int argc, char **argv) {
             int ok = 1, rv = 0; void *p = NULL; size_t asz = 0; void *arr = NULL;
             long lkb = vh_locks - vh_unlocks, ovb = vh_overlap_copies, bfb = vh_badfree;
             int narr = -1; static int arrids[8192];
-            vh_watchdog(2);
+            vh_watchdog(6);
             errno = 0;
             vh_call_begin();
             if (inject) { if (inj_at) vh_fail_at = k; else vh_fail_from = k; }
